@@ -6,7 +6,13 @@ Script ops (domain `eq`, trees in the jvtext format):
   T a b c    equal over ab bc ac ba cb ca
   X a        two arrays / two objects holding the SAME node a (pointer shortcut at depth)
   C a mut    deep copy of a, comparisons, typed dumps, address sets, serializations under
-             six flag sets, mutation probe on copy and on source, destruction, live blocks
+             six flag sets, mutation probe on copy and on source (with the comparisons and a
+             further deep copy repeated on the mutated trees), destruction, live blocks
+  H a ha b hb   both trees first get a HISTORY of public mutators (setters that grow / shrink
+             strings, switch int64<->uint64, drop retained text; adds, replaces, deletes,
+             put_idx with gaps, del_idx), then equal both ways / on themselves, deep copy of
+             a' compared with a' and b'.  Equality and copying must depend on the value
+             reached only, never on how the tree got there.
 
 The direct oracle below is a Python statement of the property (denotation equality with
 Python's own float comparison, its own mutation semantics); it does not use the Coq model."""
@@ -20,7 +26,11 @@ TECHNIQUE = "Coq proof over all trees (EqProofs.v, structural induction) + extra
 RULE = ("pairs/triples of trees generated independently from small alphabets (so that equal pairs occur), as one-position "
         "mutations, as member permutations / representation changes (int64<->uint64, +0<->-0, retained text) of one another, "
         "plus a fixed table of boundary pairs (2^63 in both representations, NaN, empty containers vs null, strings with "
-        "embedded NUL); copy sources of every shape with a mutation probe addressed by a path; a case is non-trivial when "
+        "embedded NUL); copy sources of every shape with a mutation probe addressed by a path, the comparisons and the copy "
+        "repeated on the mutated trees; pairs of trees that first get a history of public mutators (value-preserving round "
+        "trips that change only the memory representation — strings grown and set back, int64<->uint64 setters, members "
+        "added and deleted incl. table resizes, put_idx gaps and del_idx —, start trees grown into the target value, random "
+        "walks) compared with directly built trees of the same / another value; a case is non-trivial when "
         "the implementation produced a well-formed observation for it; distinct = distinct script line")
 TRUSTED = ["Coq 8.16.1 kernel (coqc), no axioms (Print Assumptions: closed under the global context)",
            "extraction (ExtrOcamlBasic only) + ocaml/mdrv glue (drv_eq.ml, jvtext.ml)",
@@ -179,6 +189,21 @@ def py_mutate(v, mut):
             return ("o", [(kk, xx) for kk, xx in x[1] if kk != k])
         if op == "I" and (is_num(x, "i") or is_num(x, "u")):
             return ("i", int(arg))
+        if op == "U" and (is_num(x, "i") or is_num(x, "u")):
+            return ("u", int(arg))
+        if op == "B" and (x is True or x is False):
+            return arg == "1"
+        if op == "Z" and isinstance(x, list):
+            i, rest = arg.split("=", 1)
+            i, val = int(i), J.parse(rest)[0]
+            if i < len(x):
+                return x[:i] + [val] + x[i + 1:]
+            return x + [None] * (i - len(x)) + [val]
+        if op == "X" and isinstance(x, list):
+            i, c = [int(t) for t in arg.split(",")]
+            if i >= len(x) or i + c > len(x):
+                return None
+            return x[:i] + x[i + c:]
         if op == "S" and isinstance(x, bytes):
             return unhex(arg)
         if op == "D" and is_num(x, "d"):
@@ -206,6 +231,17 @@ def py_mutate(v, mut):
         return True, go(v, path)
     except Bad:
         return False, v
+
+
+def py_history(v, hist):
+    """returns (ok-string, tree')"""
+    if hist == "-":
+        return "-", v
+    oks = []
+    for m in hist.split(";"):
+        ok, v = py_mutate(v, m)
+        oks.append("1" if ok else "0")
+    return "".join(oks), v
 
 
 # ------------------------------------------------------------------ generator
@@ -411,7 +447,13 @@ def gen_mut(rng, a):
         return rng.choice([pt + "/i99:I1", pt + "/k7a7a:I1", pt + ":I5" if not (is_num(x, "i") or is_num(x, "u")) else pt + ":S61",
                            pt + ":A" + val if not isinstance(x, list) else pt + ":K61"])
     if isinstance(x, list):
-        return pt + ":A" + val
+        if r < 0.45:
+            return pt + ":A" + val
+        if r < 0.7:
+            return pt + ":Z%d=%s" % (rng.choice([0, len(x), len(x) + 3, max(0, len(x) - 1), 17]), val)
+        return pt + ":X%d,%d" % (rng.choice([0, max(0, len(x) - 1), len(x) // 2, len(x)]), rng.choice([0, 1, 1, 2, len(x)]))
+    if x is True or x is False:
+        return pt + ":B%d" % rng.choice([0, 1])
     if is_obj(x):
         ks = [k for k, _ in x[1]]
         if ks and r < 0.35:
@@ -419,13 +461,142 @@ def gen_mut(rng, a):
         if ks and r < 0.6:
             return pt + ":P" + J.hx(rng.choice(ks)) + "=" + val          # replace an existing member
         return pt + ":P" + J.hx(rng.choice([b"new", b"", b"zz"] + ks)) + "=" + val
+    if (is_num(x, "i") or is_num(x, "u")) and r < 0.5:
+        return pt + ":U%d" % rng.choice([0, 42, J.INT64_MAX, J.INT64_MAX + 1, J.UINT64_MAX, x[1] if x[1] >= 0 else 1])
     if is_num(x, "i") or is_num(x, "u"):
         return pt + ":I%d" % rng.choice([0, -1, 42, J.INT64_MAX, J.INT64_MIN, x[1] + 1 if x[1] < J.INT64_MAX else 5])
     if is_num(x, "d"):
         return pt + ":D%016x" % rng.choice([D(9.75), 0, 1 << 63, NANBITS, x[1] ^ 1])
     if isinstance(x, bytes):
-        return pt + ":S" + J.hx(rng.choice([b"", b"x", x + b"!", x[:-1], b"\0z", b"y" * 70]))
+        return pt + ":S" + J.hx(rng.choice([b"", b"x", x + b"!", x[:-1], b"\0z", b"y" * 70, x + b"w" * rng.choice([1, 8, 30, 200]), x]))
     return pt + ":I1"    # null / boolean: no setter fits
+
+
+LONG = [b"L" * 20, b"a considerably longer piece of text", b"z" * 33, b"q" * 200, b"\0" * 9]
+
+
+def noise_history(rng, t, density=0.6):
+    """mutations that leave the VALUE of t unchanged but not its memory representation:
+    strings grown and set back (or set to themselves), ints re-set through the other setter,
+    members / elements added and removed again, members replaced by equal values, ..."""
+    h = []
+    for p in paths(t):
+        if rng.random() > density:
+            continue
+        x = get(t, p)
+        pt = path_text(t, p)
+        r = rng.random()
+        if isinstance(x, bytes):
+            big = x + rng.choice(LONG) if r < 0.7 else rng.choice(LONG)
+            if r < 0.85:
+                h += [pt + ":S" + J.hx(big), pt + ":S" + J.hx(x)]
+            else:
+                h += [pt + ":S" + J.hx(x)]
+        elif is_num(x, "i") or is_num(x, "u"):
+            back = pt + (":I%d" if x[0] == "i" else ":U%d") % x[1]
+            if r < 0.5:
+                h += [pt + ":U%d" % rng.choice([0, J.UINT64_MAX, J.INT64_MAX + 1]), back]
+            elif r < 0.8:
+                h += [pt + ":I%d" % rng.choice([-1, J.INT64_MIN, 5]), back]
+            elif 0 <= x[1] <= J.INT64_MAX:
+                h += [pt + (":U%d" if x[0] == "i" else ":I%d") % x[1]]       # same value, other representation
+        elif is_num(x, "d"):
+            if r < 0.5 and not is_nan_bits(x[1]):
+                h += [pt + ":D%016x" % (x[1] ^ 1), pt + ":D%016x" % x[1]]     # value back, retained text gone
+        elif x is True or x is False:
+            h += [pt + ":B%d" % (not x), pt + ":B%d" % x]
+        elif isinstance(x, list):
+            n = len(x)
+            v = J.dump(rng.choice([None, ("i", 3), b"tmp", [b"t"]]))
+            if r < 0.4:
+                h += [pt + ":A" + v, pt + ":X%d,1" % n]
+            elif r < 0.7:
+                k = rng.choice([1, 3, 20])
+                h += [pt + ":Z%d=%s" % (n + k, v), pt + ":X%d,%d" % (n, k + 1)]
+            elif n:
+                i = rng.randrange(n)
+                h += [pt + ":Z%d=%s" % (i, J.dump(x[i]))]                       # element replaced by an equal one
+        elif is_obj(x):
+            ks = [k for k, _ in x[1]]
+            fresh = [k for k in [b"tmp", b"zz9", b"", b"k0"] if k not in ks]
+            if r < 0.5 and fresh:
+                many = rng.choice([1, 1, 2, 20])                                  # 20: forces a table resize
+                names = [fresh[0] + b"%d" % j for j in range(many)]
+                names = [nm for nm in names if nm not in ks]
+                h += [pt + ":P" + J.hx(nm) + "=i1" for nm in names] + [pt + ":K" + J.hx(nm) for nm in names]
+            elif ks:
+                k = rng.choice(ks)
+                h += [pt + ":P" + J.hx(k) + "=" + J.dump(dict(x[1])[k])]         # member replaced by an equal one
+    return h
+
+
+def shrunk_start(rng, t):
+    """a start tree whose strings / ints differ from t's, and the history that sets them to t's"""
+    a0, h = t, []
+    for p in paths(t):
+        x = get(t, p)
+        pt = path_text(t, p)
+        if isinstance(x, bytes) and rng.random() < 0.7:
+            a0 = put(a0, p, rng.choice([b"", x[:1], x[:len(x) // 2], b"x"]))
+            h.append(pt + ":S" + J.hx(x))
+        elif (is_num(x, "i") or is_num(x, "u")) and rng.random() < 0.5:
+            a0 = put(a0, p, rng.choice([("i", 0), ("u", J.UINT64_MAX), ("i", -1)]))
+            h.append(pt + (":I%d" if x[0] == "i" else ":U%d") % x[1])
+    return a0, h
+
+
+def walk_history(rng, t, n):
+    """n arbitrary probes applied one after the other (value changes)"""
+    h = []
+    for _ in range(n):
+        m = gen_mut(rng, t)
+        h.append(m)
+        _, t = py_mutate(t, m)
+    return h
+
+
+def hist_text(h):
+    return ";".join(h) if h else "-"
+
+
+def gen_H(rng, out):
+    r = rng.random()
+    if r < 0.5:
+        t = add_texts(rng, small_tree(rng, 3, 3, nan=0.02))
+    elif r < 0.85:
+        t = add_texts(rng, J.gen_tree(rng, depth=rng.choice([1, 2, 3]), size=rng.choice([2, 3, 5]), nan=rng.random() < 0.1), 0.3)
+    else:
+        t = rng.choice(S_STRS + S_INTS + [[b"x"], ("o", [(b"k", [b"x"])])])
+    if t is None:
+        t = [None]
+    r = rng.random()
+    if r < 0.40:
+        a0, ha, kind = t, noise_history(rng, t), "H-noise"
+    elif r < 0.70:
+        a0, ha = shrunk_start(rng, t)
+        kind = "H-grown"
+    elif r < 0.85:
+        a0, ha = shrunk_start(rng, t)
+        ha = ha + noise_history(rng, t, 0.3)
+        kind = "H-grown+noise"
+    else:
+        a0, ha, kind = t, walk_history(rng, t, rng.randint(1, 6)), "H-walk"
+    _, ta = py_history(a0, hist_text(ha))
+    r = rng.random()
+    if r < 0.35:
+        b0 = ta                       # the value a reaches, built directly
+    elif r < 0.55:
+        b0 = repflip(rng, ta)
+    elif r < 0.70:
+        b0 = permute(rng, ta)
+    elif r < 0.88:
+        b0 = mutate_one(rng, ta)
+    else:
+        b0 = t
+    if b0 is None:
+        b0 = [None]
+    hb = noise_history(rng, b0, 0.4) if rng.random() < 0.35 else []
+    out.append(("eq H %s %s %s %s" % (J.dump(a0), hist_text(ha), J.dump(b0), hist_text(hb)), {"kind": kind}))
 
 
 def gen(rng, tier):
@@ -489,6 +660,21 @@ def gen(rng, tier):
         else:
             a = add_texts(rng, rng.choice(flat), 0.5)
         out.append(("eq C %s %s" % (J.dump(a), gen_mut(rng, a)), {"kind": "C-copy"}))
+    # trees with a history
+    for a0, ha, b0, hb in [
+            ("{6b=[s78]}", "/k6b/i0:S" + b"a considerably longer piece of text".hex(), "{6b=[s" + b"a considerably longer piece of text".hex() + "]}", "-"),
+            ("s78", ":S" + "61" * 40 + ";:S78", "s78", "-"), ("s78", "-", "s78", ":S" + "61" * 40 + ";:S78"),
+            ("s78", ":S" + "61" * 40 + ";:S78", "s78", ":S" + "62" * 90 + ";:S78"), ("s" + "61" * 40, ":S-", "s-", "-"),
+            ("s" + "61" * 40, ":S78;:S" + "61" * 40, "s" + "61" * 40, "-"), ("s-", ":S00", "s00", "-"),
+            ("i5", ":U5", "i5", "-"), ("i5", ":U9223372036854775808", "u9223372036854775808", "-"), ("u18446744073709551615", ":I-1", "i-1", "-"),
+            ("u18446744073709551615", ":I-1", "u18446744073709551615", "-"), ("i-9223372036854775808", ":U9223372036854775808", "i-9223372036854775808", "-"),
+            ("d3ff0000000000000:312e30", ":D3ff0000000000000", "d3ff0000000000000:312e30", "-"), ("d3ff0000000000000:312e30", ":D7ff8000000000000", "d7ff8000000000000", "-"),
+            ("[i1]", ":Z3=i2", "[i1,n,n,i2]", "-"), ("[i1,i2,i3]", ":X1,1", "[i1,i3]", "-"), ("[i1,i2,i3]", ":X0,3", "[]", "-"), ("[]", ":Z0=n", "[n]", "-"),
+            ("{61=i1,62=i2}", ":K61;:P61=i1", "{61=i1,62=i2}", "-"), ("{61=i1}", ":K61", "{}", "-"), ("{}", ":P61=n;:K61", "{}", "-"),
+            ("t", ":B0", "f", "-"), ("[t]", "/i0:B0;/i0:B1", "[t]", "-")]:
+        out.append(("eq H %s %s %s %s" % (a0, ha, b0, hb), {"kind": "H-edge"}))
+    for _ in range(700 if q else 25000):
+        gen_H(rng, out)
     return out
 
 
@@ -572,7 +758,7 @@ def oracle(line, meta, impl):
         h = parts[0].split(" ")
         if len(h) >= 2 and h[0] == "C" and h[1] != "0":
             return ("copy-failed", "deep copy failed: " + parts[0][:60])
-        if len(parts) != 6 or len(h) != 22 or h[9] != "S" or live_of(parts[5]) is None:
+        if len(parts) != 7 or len(h) != 22 or h[9] != "S" or live_of(parts[6]) is None:
             return ("malformed", "unexpected driver output: " + impl[:100])
         ta = J.dump(canon(a))
         nf = not has_nan(a)
@@ -600,8 +786,8 @@ def oracle(line, meta, impl):
         ok, am = py_mutate(a, mut)
         tm = J.dump(canon(am))
         okt = "ok" if ok else "bad"
-        m1, m2, d1, d2 = [p.split(" ") for p in parts[1:5]]
-        if len(m1) != 4 or len(m2) != 4 or len(d1) != 3 or len(d2) != 3 or m1[0] != "M1" or m2[0] != "M2":
+        m1, m2, kc, d1, d2 = [p.split(" ") for p in parts[1:6]]
+        if len(m1) != 6 or len(m2) != 7 or len(kc) != 5 or len(d1) != 3 or len(d2) != 3 or m1[0] != "M1" or m2[0] != "M2" or kc[0] != "K":
             return ("malformed", "unexpected driver output: " + impl[:100])
         if m1[2] != ta:
             return ("mutation-reaches-source", "mutating the copy (%s) changed the source: %s" % (mut[:60], m1[2][:100]))
@@ -611,12 +797,86 @@ def oracle(line, meta, impl):
             return ("mutation-reaches-copy", "mutating the source (%s) changed a copy: %s" % (mut[:60], m2[3][:100]))
         if m2[1] != okt or m2[2] != tm:
             return ("mutation-result", "mutation %s of the source gave %s %s, expected %s %s" % (mut[:60], m2[1], m2[2][:80], okt, tm[:80]))
+        # the comparisons again, now that one / both sides have a history
+        e1, e2, ek = bits(m1[4:6]), bits(m2[4:7]), bits(kc[2:4])
+        if e1 is None or e2 is None or ek is None:
+            return ("malformed", "unexpected driver output: " + impl[:100])
+        nfm = not has_nan(am)
+        for got, want, what in [(e1[0], should_equal(a, am), "equal(source, mutated copy)"), (e1[1], should_equal(am, a), "equal(mutated copy, source)"),
+                                (e2[0], nfm, "equal(mutated source, equally mutated copy)"), (e2[1], nfm, "equal(equally mutated copy, mutated source)"),
+                                (e2[2], should_equal(am, a), "equal(mutated source, fresh copy of the old value)")]:
+            if got and not want:
+                return ("equal-but-denote-differs", "%s = 1 after %s although the values differ" % (what, mut[:60]))
+            if want and not got:
+                return ("denote-same-but-unequal", "%s = 0 after %s although the values are the same" % (what, mut[:60]))
+        if kc[1] != "0":
+            return ("copy-failed", "deep copy of the mutated source failed: " + parts[3][:60])
+        if kc[4] != tm:
+            return ("copy-dump-differs", "typed dump of the copy of the mutated source differs: %s vs %s" % (kc[4][:100], tm[:100]))
+        if nfm and not all(ek):
+            return ("copy-unequal", "deep copy of a NaN-free tree with a history (%s) does not compare equal (%s %s)" % (mut[:60], kc[2], kc[3]))
+        if not nfm and any(ek):
+            return ("copy-nan-equal", "a tree containing a NaN compares equal to a different node")
         if d1[1] != "1" or d1[2] != tm:
             return ("destroy-reaches-source", "after destroying a copy the source reads %s (put=%s)" % (d1[2][:100], d1[1]))
         if d2[1] != "1" or d2[2] != ta:
             return ("destroy-reaches-copy", "after destroying the source the copy reads %s (put=%s)" % (d2[2][:100], d2[1]))
-        if parts[5] != "live=0":
-            return ("leak", "allocations left: " + parts[5])
+        if parts[6] != "live=0":
+            return ("leak", "allocations left: " + parts[6])
+        return None
+    if op == "H":
+        a0, b0 = J.parse(f[2])[0], J.parse(f[4])[0]
+        oa, a = py_history(a0, f[3])
+        ob, b = py_history(b0, f[5])
+        parts = impl.split(" | ")
+        h = parts[0].split(" ")
+        if len(parts) != 3 or len(h) != 9 or h[0] != "H" or live_of(parts[2]) is None:
+            return ("malformed", "unexpected driver output: " + impl[:100])
+        ta, tb = J.dump(canon(a)), J.dump(canon(b))
+        if h[1] != oa or h[2] != ob or h[3] != ta or h[4] != tb:
+            return ("mutation-result", "history gave %s %s / %s %s, expected %s %s / %s %s" % (h[1], h[3][:60], h[2], h[4][:60], oa, ta[:60], ob, tb[:60]))
+        e = bits(h[5:9])
+        if e is None:
+            return ("malformed", "unexpected driver output: " + impl[:100])
+        ab, ba, aa, bb = e
+        if not aa or not bb:
+            return ("refl", "a node with a history is not equal to itself")
+        if ab != ba:
+            return ("sym", "equal(a',b')=%d but equal(b',a')=%d after the histories" % (ab, ba))
+        want = should_equal(a, b)
+        if ab and not want:
+            return ("equal-but-denote-differs", "equal(a',b')=1 after the histories although the values differ")
+        if want and not ab:
+            return ("denote-same-but-unequal", "equal(a',b')=0 although both histories reach the same value %s" % ta[:80])
+        k = parts[1].split(" ")
+        if a is None:
+            if k[:2] != ["K", "-1"]:
+                return ("copy-of-null", "deep copy of a NULL source did not fail")
+        else:
+            if len(k) >= 2 and k[0] == "K" and k[1] != "0":
+                return ("copy-failed", "deep copy failed: " + parts[1][:60])
+            ek = bits(k[2:4] + k[7:9]) if len(k) == 9 else None
+            if ek is None:
+                return ("malformed", "unexpected driver output: " + impl[:100])
+            nf = not has_nan(a)
+            if k[4] != ta:
+                return ("copy-dump-differs", "typed dump of the copy differs from its source (a tree with a history): %s vs %s" % (k[4][:100], ta[:100]))
+            if nf and not (ek[0] and ek[1]):
+                return ("copy-unequal", "deep copy of a NaN-free tree with a history does not compare equal (%s %s)" % (k[2], k[3]))
+            if not nf and (ek[0] or ek[1]):
+                return ("copy-nan-equal", "a tree containing a NaN compares equal to a different node")
+            if k[5] != "0":
+                return ("copy-shares-node", "%s json_object node(s) reachable from both source and copy" % k[5])
+            if k[6] != "6":
+                return ("copy-text-differs", "serialization of the copy differs from its source under %d of 6 flag sets" % (6 - int(k[6])))
+            if ek[2] != ek[3]:
+                return ("sym", "equal(copy,b') != equal(b',copy)")
+            if ek[2] and not want:
+                return ("equal-but-denote-differs", "equal(copy of a', b')=1 although the values differ")
+            if want and not ek[2]:
+                return ("trans", "a' equals its copy and equals b', but the copy does not equal b'")
+        if parts[2] != "live=0":
+            return ("leak", "allocations left: " + parts[2])
         return None
     return ("malformed", "unknown op")
 
@@ -635,6 +895,8 @@ def nontrivial(line, meta, impl):
 def shrink(ck, line, cls):
     f = line.split(" ")
     op = f[1]
+    if op == "H":
+        return shrink_H(ck, line, cls)
     ntrees = {"E": 2, "T": 3, "X": 1, "C": 1}[op]
     trees = [J.parse(x)[0] for x in f[2:2 + ntrees]]
     tail = f[2 + ntrees:]
@@ -690,6 +952,59 @@ def shrink(ck, line, cls):
                 progress = True
                 break
     return mk(trees)
+
+
+def shrink_H(ck, line, cls):
+    """drop history steps (delta debugging), then children not touched by the histories"""
+    import fw
+    f = line.split(" ")
+    budget = [70]
+
+    def fails_line(l):
+        if budget[0] <= 0:
+            return False
+        budget[0] -= 1
+        try:
+            _, c, _ = ck.run_pair([l], "shrink")
+        except Exception:
+            return False
+        v = oracle(l, {}, c.get(1, "MISSING"))
+        return v is not None and v[0] == cls
+    for hi in (3, 5):
+        if f[hi] == "-":
+            continue
+        steps = f[hi].split(";")
+
+        def fails(sub, hi=hi):
+            g = list(f)
+            g[hi] = ";".join(sub) if sub else "-"
+            return fails_line(" ".join(g))
+        if fails([]):
+            steps = []
+        else:
+            steps = fw.ddmin(steps, fails, budget=25)
+        f[hi] = ";".join(steps) if steps else "-"
+    # remove children of both start trees at the same path while the failure persists
+    progress = True
+    while progress and budget[0] > 0:
+        progress = False
+        ta, tb = J.parse(f[2])[0], J.parse(f[4])[0]
+        for p in sorted(set(paths(ta)) | set(paths(tb)), key=lambda p: (-len(p), p)):
+            if not p:
+                continue
+            g = list(f)
+            for ti, t in ((2, ta), (4, tb)):
+                try:
+                    get(t, p)
+                    g[ti] = J.dump(delete(t, p))
+                except (IndexError, TypeError):
+                    pass
+            l = " ".join(g)
+            if l != " ".join(f) and fails_line(l):
+                f = g
+                progress = True
+                break
+    return " ".join(f)
 
 
 def search(rng, broken_lines):
